@@ -143,8 +143,14 @@ func isOpaqueNamed(t types.Type) bool {
 	if p == nil {
 		return false
 	}
+	if transparentTypes[p.Path()+"."+n.Obj().Name()] {
+		return false
+	}
 	return !strings.HasPrefix(p.Path(), modulePath)
 }
+
+// transparentTypes: external struct types declared `transparent` in a contract file
+var transparentTypes = map[string]bool{}
 
 const modulePath = "github.com/acquirecloud/golibs"
 
